@@ -19,4 +19,5 @@ for e in $(ls coq/extract/Extract_*.v | sed 's/.*Extract_\(.*\)\.v/\1/'); do
   ./build_engine.sh $e || echo "setup: engine $e failed"
 done
 for c in harness/cmd/*/; do (cd harness && go build -tags verif -o ../bin/$(basename $c) ./cmd/$(basename $c)) || echo "setup: harness $(basename $c) failed"; done
+python3 tools/lint.py || echo "setup: lint reported forbidden constructs"
 echo "setup done"
